@@ -402,7 +402,7 @@ func GenCase(r *vh.Rng, flavor string) Case {
 			}
 		default: // resolver failure
 			c.Ops = append(c.Ops, Op{Op: "fail", Field: Fields[r.Intn(len(Fields))], N: 1 + r.Intn(3),
-				Mode: r.Pick([]string{"plain", "safe", "panic"}), Sync: genSync(r)})
+				Mode: r.Pick([]string{"plain", "safe", "panic", "cancelown"}), Sync: genSync(r)})
 		}
 	}
 	for k := range c.Ops {
@@ -596,6 +596,90 @@ func GenCacheCase(r *vh.Rng, flavor string) Case {
 	}
 	if r.Chance(30) {
 		c.Spawn = true
+	}
+	return c
+}
+
+// GenBytesCase: a long-lived subscription on the object with the two bytes fields while one of them at a time moves
+// between empty, null (the pointer field) and a few bytes.
+func GenBytesCase(r *vh.Rng) Case {
+	c := Case{Max: 3, Origin: "generated-bytes"}
+	cur := &Inner{X: int64(r.Intn(3)), Y: r.Pick([]string{"u", "v"}), B: genBytes(r)}
+	if r.Chance(70) {
+		b := genBytes(r)
+		cur.P = &b
+	}
+	snap := func() *Inner {
+		cp := *cur
+		cp.B = append([]byte{}, cur.B...)
+		if cur.P != nil {
+			b := append([]byte{}, (*cur.P)...)
+			cp.P = &b
+		}
+		return &cp
+	}
+	c.Ops = append(c.Ops, Op{Op: "set", Field: "obj", Obj: snap()})
+	c.Ops = append(c.Ops, Op{Op: "subscribe", ID: IDPool[r.Intn(3)], Q: 14, Sync: "settle"})
+	n := 5 + r.Intn(5)
+	for i := 0; i < n; i++ {
+		switch j := r.Intn(100); {
+		case j < 30:
+			cur.B = genBytes(r)
+		case j < 60:
+			if cur.P != nil {
+				cur.P = nil
+			} else {
+				b := genBytes(r)
+				cur.P = &b
+			}
+		case j < 85:
+			b := genBytes(r)
+			cur.P = &b
+		case j < 93:
+			cur.X++
+		default:
+			c.Ops = append(c.Ops, Op{Op: "set", Field: "obj", Obj: nil, Sync: "settle"})
+		}
+		c.Ops = append(c.Ops, Op{Op: "set", Field: "obj", Obj: snap(), Sync: "settle"})
+	}
+	return c
+}
+
+// GenBurstCase: several subscriptions depend on one field; the field changes, and changes again while the re-runs the
+// first change caused are still going on (after the first of them has completed: with the default handler the
+// invalidating goroutine runs the re-runs one after the other), then everything settles.
+func GenBurstCase(r *vh.Rng) Case {
+	c := Case{Max: 3, Origin: "generated-burst"}
+	c.DelayMs = []int{8, 15}[r.Intn(2)]
+	if r.Chance(25) {
+		c.Spawn = true
+	}
+	field := r.Pick([]string{"a", "s"})
+	qs := []int{0, 1, 4, 6, 9}
+	if field == "s" {
+		qs = []int{1, 5, 6, 11}
+	}
+	k := 2 + r.Intn(2)
+	for i := 0; i < k; i++ {
+		c.Ops = append(c.Ops, Op{Op: "subscribe", ID: IDPool[i], Q: qs[r.Intn(len(qs))], Sync: "settle"})
+	}
+	val := int64(10)
+	rounds := 1 + r.Intn(3)
+	for j := 0; j < rounds; j++ {
+		set := func(sync string) {
+			val++
+			o := Op{Op: "set", Field: field, Sync: sync}
+			if field == "a" {
+				o.Int = val
+			} else {
+				o.Str = fmt.Sprintf("t%d", val)
+			}
+			c.Ops = append(c.Ops, o)
+		}
+		set("none")
+		// wait until some (not all) of the k re-runs this change causes have completed, then change the field again
+		c.Ops = append(c.Ops, Op{Op: "awaitruns", N: 1 + r.Intn(k-1)})
+		set("settle")
 	}
 	return c
 }
